@@ -16,7 +16,7 @@ THEOREMS = [
     "Remoc.Handle.deliver_attaches_own_object",
     "Remoc.Handle.return_home_removes_entry",
     "Remoc.Handle.released_all_gone",
-    "Remoc.Handle.released_provider_dropped",
+    "Remoc.Handle.released_provider_dropped_partial",
     "Remoc.Handle.released_connection_cut",
     "Remoc.Handle.gone_forever",
     "Remoc.Handle.settle_reaches_quiescence",
@@ -26,6 +26,7 @@ THEOREMS = [
     "Remoc.Lazy.blob_cut_short_is_error",
     "Remoc.Lazy.item_cut_short_is_error",
     "Remoc.Lazy.uncut_fetch_succeeds",
+    "Remoc.Lazy.first_fetch_succeeds",
 ]
 RULE = ("handle cases: real robj::handle::Handle<Tracked<TAG>> (3 distinct value types with nonce + drop counter, handles travel as "
         "Handle<Proxy> and are cast for an access) on 2-3 logical endpoints joined by 1-3 real connections (Connect::io over "
@@ -65,11 +66,14 @@ LEVEL_TEXT = ("Lean 4 theorems over M_handle for all label lists and all topolog
               "message atomicity of a chunked transfer, every fetch result under any forwards/cuts/provider drops is the provided data "
               "or an error, cut short => error, undisturbed => success.  Tied to the code by exact replay of real op sequences on "
               "the model and by predicates on the real results.")
-LEVEL_NOTE = ("Trusted: Lean kernel, the hand-written models, harness and driver.  Code behaviour modelled as found and reported as "
-              "observations: (1) dropping the provider empties the storages but a handle that is attached on the creating endpoint "
-              "keeps the value alive; (2) a handle that came home removes the storage entry, later copies stay Remote; (3) into_inner at "
-              "a wrong type destroys the value; (4) a LazyBlob that was never sent cannot be fetched locally (FetchError::Dropped); "
-              "(5) LazyBlob::fetch uses the advertised length only as an upper limit, completeness rests on message atomicity.")
+LEVEL_NOTE = ("Trusted: Lean kernel, the hand-written models, harness and driver.  The models follow the code as found; two points "
+              "where it departs from the property as worded are listed known findings with witnesses: F-C20-1 (dropping the provider "
+              "empties the storages but a handle attached on the creating endpoint keeps the value alive and usable; theorem "
+              "released_provider_dropped_partial) and F-C20-2 (a LazyBlob that was never sent cannot be fetched locally).  Observations "
+              "consistent with the property: a handle that came home removes the storage entry, later copies stay Remote; into_inner at a "
+              "wrong type destroys the value; a lost or cut-off copy counts like a dropped one (final errors on the notification "
+              "channel are held back); LazyBlob::fetch uses the advertised length only as an upper limit, completeness rests on "
+              "message atomicity.")
 TECHNIQUE = "Lean 4 invariant proofs over LTS / functional models + exact op-sequence replay and predicate check against the real crate"
 DESIGN_REF = "DESIGN.md section 5, C20"
 
@@ -107,7 +111,7 @@ def run(ctx, replay=None):
         if files:
             jobs.append(("corpus", ["run"] + files, None))
         parts = 4 if quick else 16
-        nh, nl = (250, 200) if quick else (2500, 1500)
+        nh, nl = (600, 400) if quick else (5000, 3000)
         for i in range(parts):
             jobs.append(("gen%d" % i, ["gen", nh, nl], ctx.seed * 1000 + i))
     total, nontrivial, hashes, samples, stats = 0, 0, set(), [], {}
@@ -149,7 +153,9 @@ def run(ctx, replay=None):
                 continue
             kind, cname, _, what, opline = m.groups()
             (fails if kind == "FAIL" else diffs).append((cname, what, opline, by_name.get(cname, []), l))
-    # verdicts: predicate failures first (concrete failing input), else correspondence
+    # verdicts: predicate failures first (concrete failing input; listed known findings are filtered by ctx.violation),
+    # else correspondence
+    before = len(ctx.violations)
     seen = set()
     for cname, what, opline, cl, raw in fails:
         sig = "c20 " + re.sub(r"\d+", "#", what)
@@ -160,9 +166,9 @@ def run(ctx, replay=None):
                       "# property predicate failed on the real code: %s\n# at: %s\n# replay: ./check C20 --replay <this file>   "
                       "(harness/target/debug/handle run <this file> | lean/.lake/build/bin/handle)\n%s"
                       % (what, _short(opline, 200), "".join(cl)))
-        if len(seen) >= 6:
+        if len(ctx.violations) - before >= 6:
             break
-    if diffs and not fails:
+    if diffs and len(ctx.violations) == before:
         cname, what, opline, cl, raw = diffs[0]
         classes = sorted({re.sub(r"\d+", "#", d[1].split(" model=")[0]) for d in diffs})
         ctx.violation("the real code no longer behaves like M_handle / M_lazy on %d step(s) in %d case(s) (first: %s, %s) "
